@@ -5,6 +5,7 @@ import (
 	"flag"
 	"os"
 	"reflect"
+	"strings"
 
 	"github.com/pdok/texel/tms20"
 )
@@ -26,7 +27,15 @@ type jvec struct {
 // (e.g. the field is absent from this document, or tileMatrices is no longer an array)
 func applyMut(doc map[string]any, m jmut) bool {
 	var obj map[string]any
-	if m.W == "doc" {
+	if m.W == "doc" && strings.Contains(m.F, ".") {
+		parts := strings.SplitN(m.F, ".", 2)
+		inner, ok := doc[parts[0]].(map[string]any)
+		if !ok {
+			return false
+		}
+		m.F = parts[1]
+		obj = inner
+	} else if m.W == "doc" {
 		obj = doc
 	} else {
 		arr, ok := doc["tileMatrices"].([]any)
